@@ -565,3 +565,119 @@ Section Late.
     reflexivity.
   Qed.
 End Late.
+
+(* ------------------------------------------------------------------ Part 5: the two phases of an accepted modification
+   on rule lists: the add batch (creates and updates), then the delete batch (removes) *)
+Lemma perm_interleave {A} (a1 a2 b1 b2 c1 c2 : list A) :
+  Permutation ((a1 ++ a2) ++ (b1 ++ b2) ++ (c1 ++ c2)) ((a1 ++ b1 ++ c1) ++ (a2 ++ b2 ++ c2)).
+Proof.
+  repeat rewrite <- app_assoc. apply Permutation_app_head.
+  etransitivity; [apply Permutation_app_swap_app|]. apply Permutation_app_head.
+  etransitivity; [apply Permutation_app_head; apply Permutation_app_swap_app|].
+  apply Permutation_app_swap_app.
+Qed.
+
+Section Phases.
+  Variable burst : N -> N -> N -> N.
+
+  Definition ptg (p : pdr) : list (module * list N) := map tg (pdr_add p).
+  Definition ftg (f : far) : list (module * list N) := map tg (far_add f).
+  Definition qtg (q : qer) : list (module * list N) := map tg (qer_add burst q).
+
+  Lemma tg_add_cmds P F Q : map tg (add_cmds burst P F Q) = concat (map ptg P) ++ concat (map ftg F) ++ concat (map qtg Q).
+  Proof. unfold add_cmds. rewrite !map_app, !flat_map_concat_map, !concat_map, !map_map. reflexivity. Qed.
+
+  Lemma in_add_cmds c P F Q : In c (add_cmds burst P F Q) <->
+    (exists p, In p P /\ In c (pdr_add p)) \/ (exists f, In f F /\ In c (far_add f)) \/ (exists q, In q Q /\ In c (qer_add burst q)).
+  Proof. unfold add_cmds. rewrite !in_app_iff, !in_flat_map. tauto. Qed.
+
+  Lemma qtg_eq q q' : q_id q = q_id q' -> q_fseid q = q_fseid q' -> (q_level q =? 0) = (q_level q' =? 0) -> qtg q = qtg q'.
+  Proof.
+    intros A B C. unfold qtg. destruct (qer_add_shape burst q) as (v1 & v2 & ->). destruct (qer_add_shape burst q') as (v1' & v2' & ->).
+    rewrite C, A, B. destruct (q_level q' =? 0); reflexivity.
+  Qed.
+  Lemma ftg_eq f f' : a_id f = a_id f' -> a_fseid f = a_fseid f' -> ftg f = ftg f'.
+  Proof. intros A B. unfold ftg, far_add. cbn. unfold tg. cbn. rewrite A, B. reflexivity. Qed.
+
+  Lemma phaseA t P0 F0 Q0 P1 F1 Q1 AP AF AQ rest :
+    is_image t (add_cmds burst P0 F0 Q0 ++ rest) ->
+    NoDup (map tg (add_cmds burst P1 F1 Q1)) -> disjoint_from (add_cmds burst P1 F1 Q1) rest ->
+    (forall p, In p AP -> In p P1) -> (forall f, In f AF -> In f F1) -> (forall q, In q AQ -> In q Q1) ->
+    (forall p, In p P1 -> In p AP \/ In p P0) -> (forall f, In f F1 -> In f AF \/ In f F0) -> (forall q, In q Q1 -> In q AQ \/ In q Q0) ->
+    (forall p, In p P0 -> exists p', In p' P1 /\ ptg p' = ptg p) ->
+    (forall f, In f F0 -> exists f', In f' F1 /\ ftg f' = ftg f) ->
+    (forall q, In q Q0 -> exists q', In q' Q1 /\ qtg q' = qtg q) ->
+    is_image (apply_cmds (add_cmds burst AP AF AQ) t) (add_cmds burst P1 F1 Q1 ++ rest).
+  Proof.
+    intros Hi Hn Hd SP SF SQ CP CF CQ KP KF KQ.
+    apply image_upsert with (so := add_cmds burst P0 F0 Q0); try assumption.
+    - intros x Hx. eapply add_cmds_are_adds. exact Hx.
+    - intros x Hx. apply in_add_cmds in Hx. apply in_add_cmds.
+      destruct Hx as [(p & Hp & Hx)|[(f & Hf & Hx)|(q & Hq & Hx)]]; [left; exists p|right; left; exists f|right; right; exists q]; auto.
+    - intros x Hx. apply in_add_cmds in Hx. rewrite !in_add_cmds.
+      destruct Hx as [(p & Hp & Hx)|[(f & Hf & Hx)|(q & Hq & Hx)]].
+      + destruct (CP p Hp); [left|right]; left; exists p; auto.
+      + destruct (CF f Hf); [left|right]; right; left; exists f; auto.
+      + destruct (CQ q Hq); [left|right]; right; right; exists q; auto.
+    - intros x Hx. apply in_add_cmds in Hx.
+      destruct Hx as [(p & Hp & Hx)|[(f & Hf & Hx)|(q & Hq & Hx)]].
+      + destruct (KP p Hp) as (p' & Hp' & E). assert (In (tg x) (ptg p')) as Hin by (rewrite E; apply in_map; exact Hx).
+        apply in_map_iff in Hin. destruct Hin as (c' & Ec & Hc'). exists c'. split; [apply in_add_cmds; left; exists p'; auto|exact Ec].
+      + destruct (KF f Hf) as (f' & Hf' & E). assert (In (tg x) (ftg f')) as Hin by (rewrite E; apply in_map; exact Hx).
+        apply in_map_iff in Hin. destruct Hin as (c' & Ec & Hc'). exists c'. split; [apply in_add_cmds; right; left; exists f'; auto|exact Ec].
+      + destruct (KQ q Hq) as (q' & Hq' & E). assert (In (tg x) (qtg q')) as Hin by (rewrite E; apply in_map; exact Hx).
+        apply in_map_iff in Hin. destruct Hin as (c' & Ec & Hc'). exists c'. split; [apply in_add_cmds; right; right; exists q'; auto|exact Ec].
+  Qed.
+
+  Lemma add_cmds_perm P F Q P' F' Q' dp df dq :
+    Permutation P (P' ++ dp) -> Permutation F (F' ++ df) -> Permutation Q (Q' ++ dq) ->
+    Permutation (add_cmds burst P F Q) (add_cmds burst P' F' Q' ++ add_cmds burst dp df dq).
+  Proof.
+    intros HP HF HQ. unfold add_cmds.
+    rewrite (Permutation_flat_map pdr_add HP), (Permutation_flat_map far_add HF), (Permutation_flat_map (qer_add burst) HQ).
+    rewrite !flat_map_app. apply perm_interleave.
+  Qed.
+
+  Lemma same_targets_lists dp df dq : same_targets (del_cmds dp df dq) (add_cmds burst dp df dq).
+  Proof.
+    pose proof (same_targets_session burst (Sess 0 0 (s_of dp) (s_of df) (s_of dq))) as H.
+    unfold session_cmds in H. cbn [s_pdrs s_fars s_qers] in H. rewrite !view_s_of in H. exact H.
+  Qed.
+
+  Lemma phaseB t P1 F1 Q1 P' F' Q' dp df dq rest :
+    is_image t (add_cmds burst P1 F1 Q1 ++ rest) ->
+    NoDup (map tg (add_cmds burst P1 F1 Q1)) -> disjoint_from (add_cmds burst P1 F1 Q1) rest ->
+    Permutation P1 (P' ++ dp) -> Permutation F1 (F' ++ df) -> Permutation Q1 (Q' ++ dq) ->
+    is_image (apply_cmds (del_cmds dp df dq) t) (add_cmds burst P' F' Q' ++ rest).
+  Proof.
+    intros Hi Hn Hd HP HF HQ. pose proof (add_cmds_perm _ _ _ _ _ _ _ _ _ HP HF HQ) as Hperm.
+    apply image_del with (gone := add_cmds burst dp df dq).
+    - eapply is_image_ext; [exact Hi|]. intros x. rewrite !in_app_iff.
+      split.
+      + intros [H|H]; [|right; right; exact H]. apply (Permutation_in _ Hperm) in H. apply in_app_or in H. tauto.
+      + intros [H|[H|H]]; [left|left|right; exact H]; apply (Permutation_in _ (Permutation_sym Hperm)); apply in_or_app; tauto.
+    - apply same_targets_lists.
+    - intros x. apply del_cmds_are_deletes.
+    - intros x y Hx Hy. apply in_app_or in Hy. destruct Hy as [Hy|Hy].
+      + pose proof (Permutation_NoDup (Permutation_map tg Hperm) Hn) as Hn'. rewrite map_app in Hn'.
+        destruct (nodup_app_split _ _ Hn') as (_ & _ & Hx').
+        apply hits_false_tg. intros E. apply (Hx' (tg y)); [apply in_map; exact Hy|rewrite <- E; apply in_map; exact Hx].
+      + apply Hd; [|exact Hy]. apply (Permutation_in _ (Permutation_sym Hperm)). apply in_or_app. right. exact Hx.
+  Qed.
+
+  (* the PDRs of the add batch: looked up by id in the final list *)
+  Lemma lookup_pdrs_in ids P p : In p (lookup_pdrs ids P) -> In p P.
+  Proof.
+    unfold lookup_pdrs. intros H. apply in_flat_map in H. destruct H as (id & _ & H).
+    destruct (find_idx (fun x => p_id x =? id) P) as [k|] eqn:Ek; [|destruct H]. destruct H as [<-|[]].
+    apply nth_In. eapply find_idx_lt. exact Ek.
+  Qed.
+  Lemma lookup_pdrs_finds ids P p : NoDup (map p_id P) -> In p P -> In (p_id p) ids -> In p (lookup_pdrs ids P).
+  Proof.
+    intros Hn Hp Hid. unfold lookup_pdrs. apply in_flat_map. exists (p_id p). split; [exact Hid|].
+    destruct (find_idx (fun x => p_id x =? p_id p) P) as [k|] eqn:Ek.
+    - destruct (find_idx_some _ pdr0 _ _ Ek) as [Hk He]. apply N.eqb_eq in He. left.
+      apply (nodup_map_inj p_id P); auto. apply nth_In. exact Hk.
+    - pose proof (find_idx_none _ _ Ek p Hp) as Hf. cbn in Hf. rewrite N.eqb_refl in Hf. discriminate.
+  Qed.
+End Phases.
